@@ -101,3 +101,46 @@ Example C09_truncated_instance :
                 | None => 0 | Some (_, fr) => N.of_nat (length fr) end) [0; 10; 19; 20; 27; 28; 40; 60; 66; 67]%nat
   = [0; 0; 0; 1; 1; 1; 2; 3; 3; 4] /\ length S = 68%nat.
 Proof. vm_compute. split; reflexivity. Qed.
+
+(* ---------- the same for streams with RANGE-coded blocks (Model/ContainerG.v; block sizes up to 128 MiB) ---------- *)
+From KV Require Import Model.ContainerG Proofs.ContainerProofs Proofs.ContainerGProofs Proofs.TruncGProofs Proofs.TruncEndToEndRange.
+Theorem C09_truncated_range_stream : forall (hash : list N -> N) (evalid tvalid : N -> bool) c blocks nframes rbuf sched (k : nat),
+  cfg_ok evalid tvalid c -> h_etype c = RANGE_TYPE -> h_bsize c <= 134217728 ->
+  (h_ck c = 1 -> forall l, hash l < 2 ^ 32) -> (h_ck c = 2 -> forall l, hash l < 2 ^ 64) ->
+  Forall (blk_ok (h_bsize c)) blocks -> (length blocks < nframes)%nat -> 0 < rbuf -> rbuf mod 8 = 0 ->
+  (k < length (write_stream_e hash c blocks))%nat ->
+  let cut := firstn k (write_stream_e hash c blocks) in
+  parse_stream_e hash evalid tvalid nframes rbuf sched cut = None \/
+  exists j, (j <= length blocks)%nat /\
+    parse_stream_e hash evalid tvalid nframes rbuf sched cut = Some (norm_cfg c, map PData (firstn j blocks) ++ [PFail]).
+Proof. exact range_stream_truncated. Qed.
+Print Assumptions C09_truncated_range_stream.
+
+Theorem C09_truncated_range_stream_end_to_end : forall (evalid tvalid : N -> bool) c jr hr (data : list N) (ns : list N) nframes rbuf sched (k : nat),
+  cfg_ok evalid tvalid c -> h_etype c = RANGE_TYPE -> h_bsize c <= 134217728 ->
+  bytes_ok data -> (length data < nframes)%nat -> 0 < jr -> 0 < rbuf -> rbuf mod 8 = 0 ->
+  let B := h_bsize c in let hash := block_hash (h_ck c) in
+  let stream := write_stream_e hash c (chunks B data) in
+  (k < length stream)%nat ->
+  parse_stream_e hash evalid tvalid nframes rbuf sched (firstn k stream) = None \/
+  exists frames, parse_stream_e hash evalid tvalid nframes rbuf sched (firstn k stream) = Some (norm_cfg c, frames) /\
+    let out := fst (do_reads_g B jr hr 0 0 (init_r (map frame_of frames)) ns) in
+    ~ In REOF (map snd out) /\
+    (exists m, concat (map fst out) = firstn m (range_bytes B 0 0 data)) /\
+    (forall l1 x l2, out = l1 ++ x :: l2 -> snd x = RErr -> Forall (fun y => y = ([], RErr)) l2).
+Proof.
+  intros evalid tvalid c jr hr data ns nframes rbuf sched k Hc Het Hbs.
+  exact (truncated_end_to_end_range (block_hash (h_ck c)) evalid tvalid c jr hr data ns nframes rbuf sched k Hc Het Hbs
+           (block_hash_32 (h_ck c)) (block_hash_64 (h_ck c))).
+Qed.
+Print Assumptions C09_truncated_range_stream_end_to_end.
+
+Example C09_truncated_range_instance :
+  let hash := block_hash 1 in let c := mkH 1 4 0 1024 0 in
+  let blocks := [[1; 2; 3]; [255; 0; 254; 9; 8; 7; 6; 5; 4; 3; 2; 1; 0; 11; 12; 13; 14; 15; 16; 17]; [42]] in
+  let S := write_stream_e hash c blocks in
+  forallb (fun k => match parse_stream_e hash (fun _ => true) (fun _ => true) 10 16 [3; 1; 5] (firstn k S) with
+                    | None => true | Some (_, fr) => match last fr PEnd with PFail => true | _ => false end end)
+          (seq 0 (length S)) = true /\
+  parse_stream_e hash (fun _ => true) (fun _ => true) 10 16 [3; 1; 5] S = Some (norm_cfg c, map PData blocks ++ [PEnd]).
+Proof. vm_compute. split; reflexivity. Qed.
